@@ -829,8 +829,11 @@ func (x *Exec) havocForCall(call *ast.CallExpr, st, entry *State, env *Env, touc
 			fn = o
 		case *types.Var:
 			// call of a function value: its funcval contract tells what it may modify
-			if ct, ok := x.w.Contracts[x.pkg.Name+".funcval."+o.Name()]; ok && len(ct.Modifies) > 0 {
-				x.havocExplicit(ct, call, st, entry, env, touched, modArrs, allHeaps)
+			if ct, ok := x.w.Contracts[x.pkg.Name+".funcval."+o.Name()]; ok {
+				x.havocGhostResults(ct, st)
+				if len(ct.Modifies) > 0 {
+					x.havocExplicit(ct, call, st, entry, env, touched, modArrs, allHeaps)
+				}
 			}
 			return
 		default:
@@ -878,6 +881,7 @@ func (x *Exec) havocForCall(call *ast.CallExpr, st, entry *State, env *Env, touc
 	if !ok {
 		x.abort("call of %s (in loop) which has no contract", key)
 	}
+	x.havocGhostResults(ct, st)
 	if len(ct.Modifies) == 0 {
 		return
 	}
@@ -1398,6 +1402,19 @@ func (x *Exec) havocExplicit(ct *Contract, call *ast.CallExpr, st, entry *State,
 		if !ok {
 			*allHeaps = true
 			return
+		}
+	}
+}
+
+// havocGhostResults: a call inside a loop gives new values to the ghost variables its postconditions
+// mention (they are ghost results of the callee); at the loop head these ghosts are unknown.
+func (x *Exec) havocGhostResults(ct *Contract, st *State) {
+	for _, cl := range ct.Ensures {
+		for _, g := range ghostNameRe.FindAllString(cl.Text, -1) {
+			gp := "ghost:" + g
+			if cur, ok := st.vars[gp].(Scalar); ok {
+				st.vars[gp] = Scalar{x.fc.fresh(gp, cur.TI.sort()), cur.TI}
+			}
 		}
 	}
 }
